@@ -218,7 +218,7 @@ Next ==
                             LET es == {j2 \in 1..Len(W) : j2 < j /\ W[j2].h = "established" /\ W[j2].c = W[j].c} IN
                             IF es = {} THEN W[j].c \in DOMAIN liveK /\ liveK[W[j].c] # W[j].conn
                             ELSE W[CHOOSE j2 \in es : \A j3 \in es : j3 <= j2].conn # W[j].conn}}
-             IN /\ liveK' = IF e.ev = "Config" THEN <<>> ELSE lk
+             IN /\ liveK' = IF e.ev \in {"Config", "shutdown", "restart"} THEN <<>> ELSE lk
                 /\ tZd' = IF e.ev = "Config" THEN {} ELSE tZd \cup Zs("disconnect")
                 /\ tZw' = IF e.ev = "Config" THEN {} ELSE tZw \cup Zs("will_sent")
           /\ l' = l + 1
